@@ -38,6 +38,17 @@ impl SharedTcpPort {
         }
     }
 
+    /// Resolves once the port has been asked to shut down (polled: the flag is set
+    /// from a synchronous Drop).
+    async fn shutdown_signal(&self) {
+        loop {
+            if self.shutting_down.load(Ordering::Relaxed) {
+                return;
+            }
+            tokio::time::sleep(std::time::Duration::from_millis(250)).await;
+        }
+    }
+
     fn spawn_accept_loop(self: &Arc<Self>) {
         let port = Arc::clone(self);
         let listener = Arc::clone(&self.listener);
@@ -46,7 +57,14 @@ impl SharedTcpPort {
                 if port.shutting_down.load(Ordering::Relaxed) {
                     break;
                 }
-                let accept = listener.accept().await;
+                // accept() alone never wakes when the last registration goes away:
+                // the task would keep the listener (and the port) until somebody
+                // happens to connect.
+                let accept = tokio::select! {
+                    biased;
+                    _ = port.shutdown_signal() => break,
+                    res = listener.accept() => res,
+                };
                 match accept {
                     Ok((stream, peer)) => {
                         let port = Arc::clone(&port);
